@@ -5,12 +5,14 @@
 //!   rl_harness run                                    -> reads ops on stdin, answers on stdout
 //!   rl_harness dump <what>                            -> table dumps for the translator (C07)
 mod dates;
+mod hols;
 mod rng;
 
 use std::io::{BufRead, BufWriter, Write};
 
 pub struct State {
     pub dates: dates::DateState,
+    pub hols: hols::HolState,
 }
 
 fn run() {
@@ -21,6 +23,7 @@ fn run() {
     let mut out = BufWriter::new(stdout.lock());
     let mut st = State {
         dates: dates::DateState::default(),
+        hols: hols::HolState::default(),
     };
     for line in stdin.lock().lines() {
         let line = line.unwrap();
@@ -36,6 +39,9 @@ fn step(st: &mut State, toks: &[&str]) -> String {
         return "ok".to_string();
     }
     if let Some(a) = dates::step(&mut st.dates, toks) {
+        return a;
+    }
+    if let Some(a) = hols::step(&mut st.hols, toks) {
         return a;
     }
     "bad-op".to_string()
@@ -56,6 +62,7 @@ fn main() {
                 "C04" => dates::gen_c04(&mut out, thorough, seed),
                 "C05" => dates::gen_c05(&mut out, thorough, seed),
                 "C06" => dates::gen_c06(&mut out, thorough, seed),
+                "C07" => hols::gen_c07(&mut out, thorough, seed),
                 "C08" => dates::gen_c08(&mut out, thorough, seed),
                 _ => {
                     eprintln!("unknown property {}", prop);
